@@ -22,7 +22,7 @@ RULE = ("case = (intrinsic expression | payload template, input); expressions fr
 ASSUMPTIONS = ["unspecified and skipped: States.Format of non-string/non-integer arguments, negative ArrayRange steps, MathRandom values, "
                "Base64Decode of invalid text, numeric literal spellings outside JSON, escapes other than \\' \\\\ \\{ \\}",
                "ArrayUnique order and StringSplit empty members are matched as patterns (any order / modulo empty strings); hash-seed independence is decided by the separate sub-process sweep"]
-FLOORS = {"evaluations": 6000, "expressions_compared": 4000, "templates_compared": 500, "state_level_compared": 200, "nontrivial": 2500,
+FLOORS = {"selector_cases": 300, "evaluations": 6000, "expressions_compared": 4000, "templates_compared": 500, "state_level_compared": 200, "nontrivial": 2500,
           "contract_evaluations": 5000, "hashseed_runs": 3, "ref_failures_expected": 500, "ref_values_expected": 1500}
 SHARDS = {"quick": 8, "thorough": 16}
 TECHNIQUE = "reference-evaluator monitor + runtime contracts on evaluate_payload_template; PYTHONHASHSEED sweep in sub-processes"
@@ -389,6 +389,57 @@ def compare_state(ctx, expr_ast):
                       classify_expr(expr_ast, expr, exp, None, feats))
 
 
+def compare_selector_state(ctx, k):
+    """The same template rules wherever a template may stand: Task ResultSelector (its input is the task's result, of ANY JSON type), Map
+    ItemSelector, Map/Parallel ResultSelector, Pass/Task Parameters - through real executions."""
+    r = ctx.rng("selector", k)
+    FN = "arn:aws:rpcmessage:local::function:"
+    result = copy.deepcopy(r.choice(["str", 5, 0, 1.5, True, False, None, [], [1, {"a": 2}], {}, {"k": {"j": [1]}}, ""]))
+    tpl = {}
+    for j in range(r.randint(1, 3)):
+        c = r.random()
+        if c < 0.35:
+            tpl["v%d.$" % j] = r.choice(["$", "$", "$.k", "$.k.j", "$[0]", "$$.State.Name", "$$.Execution.Name"])
+        elif c < 0.6:
+            tpl["lit%d" % j] = copy.deepcopy(r.choice([1, "$.notapath", None, {"n.$": "$"}, ["$", {"m.$": "$"}], "plain.$", {}]))
+        else:
+            tpl["n%d" % j] = {"deep": {"w.$": "$"}, "c": j}
+    where = ["task-result-selector", "task-parameters", "map-item-selector", "map-result-selector", "parallel-result-selector"][k % 5]
+    data = {"k": {"j": [1]}, "items": [result, 7]}
+    if where == "task-result-selector":
+        st = {"Type": "Task", "Resource": FN + "res", "ResultSelector": tpl, "End": True}
+    elif where == "task-parameters":
+        st = {"Type": "Task", "Resource": FN + "echo", "Parameters": tpl, "End": True}
+    elif where == "map-item-selector":
+        t2 = dict(tpl, **{"item.$": "$$.Map.Item.Value", "idx.$": "$$.Map.Item.Index"})
+        st = {"Type": "Map", "ItemsPath": "$.items", "ItemSelector": t2, "ItemProcessor": {"StartAt": "I", "States": {"I": {"Type": "Pass", "End": True}}}, "End": True}
+    elif where == "map-result-selector":
+        st = {"Type": "Map", "ItemsPath": "$.items", "ResultSelector": tpl, "ItemProcessor": {"StartAt": "I", "States": {"I": {"Type": "Pass", "End": True}}}, "End": True}
+    else:
+        st = {"Type": "Parallel", "ResultSelector": tpl, "Branches": [{"StartAt": "B", "States": {"B": {"Type": "Pass", "Result": result, "End": True}}}], "End": True}
+    asl = {"StartAt": "S", "States": {"S": st}}
+    from lsfverif.gen.machines import task_oracle
+    funcs = {"res": ["const", result], "echo": ["echo"]}
+    try:
+        o = R.Interp(asl, task_oracle(funcs), exec_id="arn:aws:states:local:0123456789:execution:m:e", exec_name="e").run(copy.deepcopy(data))
+    except R.Unspecified:
+        ctx.count("unspecified")
+        return
+    res = mini.run(asl, copy.deepcopy(data), tasks=lambda fn, p: copy.deepcopy(result) if fn == "res" else p)
+    ctx.evaluation(); ctx.count("state_level_compared"); ctx.count("selector_cases"); ctx.count("selector:" + where)
+    exp = ("SUCCEEDED", o.output) if o.status == "SUCCEEDED" else ("FAILED", o.error)
+    got = ("SUCCEEDED", res["output"]) if res["status"] == "SUCCEEDED" else (res["status"], res["error"])
+    ok = got[0] == exp[0] and (R.matches(exp[1], got[1]) if got[0] == "SUCCEEDED" else (got[1] == exp[1] or {got[1], exp[1]} <= {"States.Runtime", "States.ParameterPathFailure"}))
+    ctx.nontrivial(["selector", where, tpl, result])
+    if not ok:
+        mech = None
+        if o.facts.get("null_docs") or result is None:
+            mech = "null-document-as-empty-object"
+        elif o.facts.get("error_member_values") and got[0] == "FAILED":
+            mech = "inband-error-member"
+        ctx.violation("state-level-template", dict(where=where, state=st, input=data, task_result=result, expected=exp, engine=got), mech)
+
+
 FIXED_CASES = [
     "States.Format('{}', 'a')", "States.Format('a\\{b\\}c')", "States.Format('it\\'s {}', 'x')", "States.Format('{0.__class__}', 'a')",
     "States.Format('{} {}', $.s, $.n)", "States.Format('{', 'a')", "States.Array(1, 'a', null, $.o)", "States.ArrayUnique($.arr)",
@@ -433,6 +484,10 @@ def run(ctx):
         r = ctx.rng("tpl", k)
         data = copy.deepcopy(DATA) if r.random() < 0.8 else r.choice([[1, 2], "str", 5, None, {}])
         compare_template(ctx, gen_template(r, ctx.pick(3, 5)), data)
+    for k in range(ctx.pick(600, 30000)):
+        i += 1
+        if ctx.mine(i):
+            compare_selector_state(ctx, k)
     for v in contracts.drain():
         ctx.violation("contract:" + v["contract"], v, "template-root-path-primitive" if False else None)
     ctx.count("contract_evaluations", sum(contracts.evaluations.values()))
